@@ -132,9 +132,15 @@ def r2(ctx):
                         descended.append(dict(st))
                         return flow.KILL
                     return None
-                outs, fl = es.count_effects(fn, pdb, classify, None, oracle=oracle, cell={("arg", 0): ("nin", frozenset([0]))} if False else None)
+                # evaluated for an existing node (arg0 != NULL): the walk ends only by returning a covering node or by running out of nodes
+                outs, fl = es.count_effects(fn, pdb, classify, None, oracle=oracle, cell={0: ("nin", frozenset([0]))})
                 cover = len_le and bits_eq
                 rets_nonnull = [o for o in outs if o["ret"] != flow.av_in(0) and not o["counts"]]
+                gave_up = [o for o in outs if o["ret"] == flow.av_in(0)]
+                if gave_up:
+                    ctx.violation("C01.R2", "lookup[len%smask,bits%s,%s]:gives-up" % ({"lt": "<", "eq": "=", "gt": ">"}[lrel], "=" if bits_eq else "!=", "left" if left else "right"),
+                                  gave_up[0]["inst"].loc(), "returns NULL while standing on an existing node (nodes below it are never looked at)",
+                                  key="C01.R2:lookup:gives-up", path=flow.trace_lines(fn, gave_up[0]["trace"]))
                 exp = {"bit": 1, "go_lchild" if left else "go_rchild": 1, "lvl+1": 1}
                 if cover:
                     good = bool(rets_nonnull) and not descended
@@ -437,6 +443,10 @@ def check(ctx):
     r2(ctx)
     r3(ctx)
     r4(ctx, retsets)
+    from specs import C02
+    with ctx.shared({"C02.R1": ("C01.R5", "the records validation reads are the records that were added: two records that differ in AS, max-length or "
+                                "source are different records to add and remove (otherwise a removal deletes a sibling and answers change)")}):
+        C02.r1(ctx)
     ctx.not_decided("that the trie reaches a correct shape after arbitrary insert/remove orders (parents never longer than children, "
                     "every node on the path spelled by its prefix bits)")
     ctx.not_decided("the arithmetic inside lrtr_get_bits / lrtr_ipv6_get_bits and lrtr_ip_addr_is_zero / lrtr_ip_addr_equal")
